@@ -41,6 +41,7 @@ func init() {
 			compactionShape(r)
 			kvPutGrowsStore(r)
 			tableUpdateWritesVersion(r, "update-writes-version")
+			c02ReplicateBeforeAck(r)
 		},
 	})
 }
